@@ -283,6 +283,10 @@ func (e *Engine) runArm(fr *frame, blk, prev, target *ssa.BasicBlock, depth int,
 		if next == nil {
 			return nil, false
 		}
+		if next.Dominates(blk) {
+			// loop back-edge: header phis are redefined per iteration, speculation would clobber them
+			return nil, false
+		}
 		prev, blk = blk, next
 	cont:
 	}
